@@ -471,13 +471,20 @@ fn run_hidden_ticker(c: &HiddenTickerCase) -> CaseResult {
         let r = catch(|| hidden_ticker_scenario(&c2));
         let _ = tx.send(r);
     });
-    match rx.recv_timeout(Duration::from_secs(20)) {
+    // (once a case has missed the bound in this process, shrinking re-runs use 3 s instead of 20 s; the
+    // expected time is far below a millisecond)
+    static MISSED_ONCE: std::sync::atomic::AtomicBool = std::sync::atomic::AtomicBool::new(false);
+    let bound = Duration::from_secs(if MISSED_ONCE.load(std::sync::atomic::Ordering::SeqCst) { 3 } else { 20 });
+    match rx.recv_timeout(bound) {
         Ok(Ok(r)) => r,
         Ok(Err(p)) => Err(Fail::new("panic", format!("{c:?} panicked: {p}"))),
-        Err(_) => Err(Fail::new(
-            "hidden_bar_hangs",
-            format!("{c:?}: enable_steady_tick / inc / disable_steady_tick on a hidden bar did not return within 20 s (the visible twin is not involved)"),
-        )),
+        Err(_) => {
+            MISSED_ONCE.store(true, std::sync::atomic::Ordering::SeqCst);
+            Err(Fail::new(
+                "hidden_bar_hangs",
+                format!("{c:?}: enable_steady_tick / inc / disable_steady_tick on a hidden bar did not return within {bound:?} (the visible twin is not involved)"),
+            ))
+        }
     }
 }
 
